@@ -59,14 +59,22 @@ theorem observed_tables_cover_domain :
 /-- stated directly on the outcomes observed on the live library (no model involved): outside the
     excluded cells every observed conversion outcome is acceptable to the reference, and every
     observed mixed-unit `np.add` whose second operand is not a 1-byte integer returned float or
-    complex data — complex exactly when one of the operands is complex -/
+    complex data — complex exactly when one of the operands is complex — with components at least as
+    wide as the converted operand's; `to_value` on a quantity (a Python scalar) is included -/
 theorem observed_outcomes_satisfy_property :
     observedRoutes.all (fun (r, d, q, o) =>
-        d.kind == .b || knownExcluded r d q || (r == .toValue && q) || acceptable d o) = true
+        d.kind == .b || knownExcluded r d q ||
+          (if r == .toValue && q then
+             -- a Python scalar: recorded as float64 / complex128; fine when the required type fits
+             (mayRaise d && (match o with | .error _ => true | .ok _ => false)) ||
+             (eqOutO o (.ok ⟨.f, 8⟩) && (expectedDtype d).kind == .f && decide ((expectedDtype d).size ≤ 8)) ||
+             (eqOutO o (.ok ⟨.c, 16⟩) && (expectedDtype d).kind == .c && decide ((expectedDtype d).size ≤ 16))
+           else acceptable d o)) = true
     ∧ observedBinary.all (fun (a, b, o) =>
         a.kind == .b || b.kind == .b || mayRaise b ||
           (match o with
            | .ok r => (r.kind == .f || r.kind == .c) && ((r.kind == .c) == (a.kind == .c || b.kind == .c))
+                        && decide (max 2 b.compSize ≤ r.compSize)
            | .error _ => false)) = true := by
   decide +kernel
 
